@@ -227,13 +227,112 @@ func (it *Interp) reflectTypeMethod(tok *typeToken, name string, args []Value) V
 		if i < 0 || i >= st.NumFields() {
 			it.goPanicValue(mkStrIface(it, "reflect: Field index out of bounds"))
 		}
-		f := st.Field(i)
-		pkgPath := ""
-		if !f.Exported() && f.Pkg() != nil {
-			pkgPath = f.Pkg().Path()
+		return it.reflStructField(st, i, []int{i})
+	case "FieldByIndex":
+		sl, _ := args[0].Ref.(Slice)
+		cur := t
+		var res Value
+		var path []int
+		for k := 0; k < sl.n; k++ {
+			if k > 0 {
+				if p, isP := cur.Underlying().(*types.Pointer); isP {
+					cur = p.Elem()
+				}
+			}
+			st, ok := cur.Underlying().(*types.Struct)
+			if !ok {
+				it.goPanicValue(mkStrIface(it, "reflect: FieldByIndex of non-struct type "+typeStr(cur)))
+			}
+			i := int(it.concInt(it.loadCell(sl.c[k]), types.Typ[types.Int]))
+			if i < 0 || i >= st.NumFields() {
+				it.goPanicValue(mkStrIface(it, "reflect: Field index out of bounds"))
+			}
+			path = append(path, i)
+			res = it.reflStructField(st, i, append([]int(nil), path...))
+			cur = st.Field(i).Type()
 		}
-		// reflect.StructField{Name, PkgPath, Type, Tag, Offset, Index, Anonymous}
-		return Value{Ref: &Agg{v: []Value{mkStr(f.Name()), mkStr(pkgPath), it.reflectTypeValue(f.Type()), mkStr(reflectTagValue(st.Tag(i))), {}, {}, {Bits: b2u(f.Embedded())}}}}
+		return res
+	case "FieldByName":
+		st, ok := t.Underlying().(*types.Struct)
+		if !ok {
+			it.goPanicValue(mkStrIface(it, "reflect: FieldByName of non-struct type "+typeStr(t)))
+		}
+		ns, _ := args[0].Ref.(*Str)
+		if ns == nil || !ns.Concrete() {
+			it.unsupported("reflect.Type.FieldByName with a symbolic name")
+		}
+		// breadth-first over embedded structs, as reflect does; an ambiguous
+		// name at the shallowest depth is not found
+		type cand struct {
+			st   *types.Struct
+			path []int
+		}
+		level := []cand{{st, nil}}
+		for depth := 0; depth < 4 && len(level) > 0; depth++ {
+			var found []cand
+			var foundIdx []int
+			var next []cand
+			for _, c := range level {
+				for i := 0; i < c.st.NumFields(); i++ {
+					f := c.st.Field(i)
+					if f.Name() == ns.s {
+						found = append(found, c)
+						foundIdx = append(foundIdx, i)
+					}
+					if f.Embedded() {
+						ft := f.Type()
+						if p, isP := ft.Underlying().(*types.Pointer); isP {
+							ft = p.Elem()
+						}
+						if est, isS := ft.Underlying().(*types.Struct); isS {
+							next = append(next, cand{est, append(append([]int(nil), c.path...), i)})
+						}
+					}
+				}
+			}
+			if len(found) == 1 {
+				c := found[0]
+				return Value{Ref: Tuple{it.reflStructField(c.st, foundIdx[0], append(append([]int(nil), c.path...), foundIdx[0])), Value{Bits: 1}}}
+			}
+			if len(found) > 1 {
+				break
+			}
+			level = next
+		}
+		zero := Value{Ref: &Agg{v: []Value{mkStr(""), mkStr(""), {}, mkStr(""), {}, {}, {}}}}
+		return Value{Ref: Tuple{zero, Value{}}}
+	case "MethodByName":
+		ns, _ := args[0].Ref.(*Str)
+		if ns == nil || !ns.Concrete() {
+			it.unsupported("reflect.Type.MethodByName with a symbolic name")
+		}
+		ms := types.NewMethodSet(t)
+		idx := 0
+		for i := 0; i < ms.Len(); i++ {
+			m := ms.At(i).Obj()
+			if !m.Exported() {
+				continue
+			}
+			if m.Name() == ns.s {
+				sig := m.Type().(*types.Signature)
+				mt := types.Type(sig)
+				if _, isI := t.Underlying().(*types.Interface); !isI {
+					params := []*types.Var{types.NewParam(0, nil, "", t)}
+					for j := 0; j < sig.Params().Len(); j++ {
+						params = append(params, sig.Params().At(j))
+					}
+					mt = types.NewSignatureType(nil, nil, nil, types.NewTuple(params...), sig.Results(), sig.Variadic())
+				} else {
+					mt = types.NewSignatureType(nil, nil, nil, sig.Params(), sig.Results(), sig.Variadic())
+				}
+				// reflect.Method{Name, PkgPath, Type, Func, Index}
+				meth := &Agg{v: []Value{mkStr(m.Name()), mkStr(""), it.reflectTypeValue(mt), {Ref: &poisonT{"reflect.Method.Func"}}, {Bits: uint64(idx)}}}
+				return Value{Ref: Tuple{Value{Ref: meth}, Value{Bits: 1}}}
+			}
+			idx++
+		}
+		zero := &Agg{v: []Value{mkStr(""), mkStr(""), {}, {}, {}}}
+		return Value{Ref: Tuple{Value{Ref: zero}, Value{}}}
 	case "Bits":
 		if isScalar(t) {
 			s, _ := scalarSort(t)
@@ -251,6 +350,21 @@ func (it *Interp) reflectTypeMethod(tok *typeToken, name string, args []Value) V
 	}
 	it.unsupported("reflect.Type method " + name + " is not modelled")
 	return Value{}
+}
+
+// reflStructField is the reflect.StructField of field i of st.
+func (it *Interp) reflStructField(st *types.Struct, i int, index []int) Value {
+	f := st.Field(i)
+	pkgPath := ""
+	if !f.Exported() && f.Pkg() != nil {
+		pkgPath = f.Pkg().Path()
+	}
+	idx := it.newSlice(types.Typ[types.Int], len(index), len(index))
+	for k, x := range index {
+		idx.c[k].storeRaw(Value{Bits: uint64(x)})
+	}
+	// reflect.StructField{Name, PkgPath, Type, Tag, Offset, Index, Anonymous}
+	return Value{Ref: &Agg{v: []Value{mkStr(f.Name()), mkStr(pkgPath), it.reflectTypeValue(f.Type()), mkStr(reflectTagValue(st.Tag(i))), {}, {Ref: idx}, {Bits: b2u(f.Embedded())}}}}
 }
 
 func mkStrIface(it *Interp, s string) Value {
@@ -283,6 +397,39 @@ func reflectIntrinsic(eng *Engine, fn *ssa.Function, name string) intrinsic {
 			}
 			variadic := args[2].Ref == nil && args[2].Bits != 0
 			return it.reflectTypeValue(types.NewSignatureType(nil, nil, nil, tuple(args[0]), tuple(args[1]), variadic))
+		}
+	case name == "reflect.StructOf":
+		return func(it *Interp, f *ssa.Function, args []Value) Value {
+			sl, _ := args[0].Ref.(Slice)
+			vars := make([]*types.Var, sl.n)
+			tags := make([]string, sl.n)
+			for i := 0; i < sl.n; i++ {
+				a, _ := it.loadCell(sl.c[i]).Ref.(*Agg)
+				if a == nil {
+					it.unsupported("reflect.StructOf of an unmodelled field")
+				}
+				nm, _ := a.v[0].Ref.(*Str)
+				pp, _ := a.v[1].Ref.(*Str)
+				tg, _ := a.v[3].Ref.(*Str)
+				if nm == nil || !nm.Concrete() || (pp != nil && !pp.Concrete()) || (tg != nil && !tg.Concrete()) {
+					it.unsupported("reflect.StructOf with symbolic field names")
+				}
+				if nm.s == "" {
+					it.goPanicValue(mkStrIface(it, "reflect.StructOf: field "+fmt.Sprint(i)+" has no name"))
+				}
+				if a.v[2].Ref == nil {
+					it.goPanicValue(mkStrIface(it, "reflect.StructOf: field "+fmt.Sprint(i)+" has no type"))
+				}
+				var pkg *types.Package
+				if pp != nil && pp.s != "" {
+					pkg = it.eng.typesPackage(pp.s)
+				}
+				vars[i] = types.NewField(0, pkg, nm.s, it.tokenArg(a.v[2]).t, a.v[6].Bits != 0)
+				if tg != nil {
+					tags[i] = tg.s
+				}
+			}
+			return it.reflectTypeValue(types.NewStruct(vars, tags))
 		}
 	case name == "reflect.SliceOf":
 		return func(it *Interp, f *ssa.Function, args []Value) Value {
@@ -352,6 +499,7 @@ type ReflVal struct {
 	t    types.Type
 	v    Value
 	addr *Cell // non-nil when the value is addressable (obtained through a pointer)
+	ro   bool  // obtained through an unexported struct field (reflect's flagRO)
 }
 
 // cur is the current value (re-read from memory when addressable).
@@ -424,11 +572,14 @@ func reflectValueIntrinsics() map[string]intrinsic {
 			return it.reflectTypeValue(it.reflVal(args[0], "Type").t)
 		},
 		"(reflect.Value).CanInterface": func(it *Interp, fn *ssa.Function, args []Value) Value {
-			it.reflVal(args[0], "CanInterface")
-			return Value{Bits: 1}
+			rv := it.reflVal(args[0], "CanInterface")
+			return Value{Bits: b2u(!rv.ro)}
 		},
 		"(reflect.Value).Interface": func(it *Interp, fn *ssa.Function, args []Value) Value {
 			rv := it.reflVal(args[0], "Interface")
+			if rv.ro {
+				it.goPanicValue(mkStrIface(it, "reflect.Value.Interface: cannot return value obtained from unexported field or method"))
+			}
 			if _, isI := rv.t.Underlying().(*types.Interface); isI {
 				return rv.cur()
 			}
@@ -534,16 +685,16 @@ func reflectValueIntrinsics() map[string]intrinsic {
 				if i < 0 || i >= s.n {
 					it.goPanicValue(mkStrIface(it, "reflect: slice index out of range"))
 				}
-				return Value{Ref: &ReflVal{t: u.Elem(), addr: s.c[i]}}
+				return Value{Ref: &ReflVal{t: u.Elem(), addr: s.c[i], ro: rv.ro}}
 			case *types.Array:
 				a := rv.cur().Ref.(*Agg)
 				if i < 0 || i >= len(a.v) {
 					it.goPanicValue(mkStrIface(it, "reflect: array index out of range"))
 				}
 				if rv.addr != nil && rv.addr.agg && len(rv.addr.sub) == len(a.v) {
-					return Value{Ref: &ReflVal{t: u.Elem(), addr: rv.addr.sub[i]}}
+					return Value{Ref: &ReflVal{t: u.Elem(), addr: rv.addr.sub[i], ro: rv.ro}}
 				}
-				return Value{Ref: &ReflVal{t: u.Elem(), v: a.v[i]}}
+				return Value{Ref: &ReflVal{t: u.Elem(), v: a.v[i], ro: rv.ro}}
 			case *types.Basic:
 				if s, ok := rv.cur().Ref.(*Str); ok {
 					if i < 0 || i >= s.Len() {
@@ -563,20 +714,20 @@ func reflectValueIntrinsics() map[string]intrinsic {
 					return Value{}
 				}
 				c := it.cellOf(rv.cur())
-				return Value{Ref: &ReflVal{t: u.Elem(), addr: c}}
+				return Value{Ref: &ReflVal{t: u.Elem(), addr: c, ro: rv.ro}}
 			case *types.Interface:
 				ifc, _ := rv.cur().Ref.(*Iface)
 				if ifc == nil {
 					return Value{}
 				}
-				return Value{Ref: &ReflVal{t: ifc.t, v: ifc.v}}
+				return Value{Ref: &ReflVal{t: ifc.t, v: ifc.v, ro: rv.ro}}
 			}
 			it.reflKindPanic("Elem", rv)
 			return Value{}
 		},
 		"(reflect.Value).CanSet": func(it *Interp, fn *ssa.Function, args []Value) Value {
 			rv := it.reflVal(args[0], "CanSet")
-			return Value{Bits: b2u(rv.addr != nil)}
+			return Value{Bits: b2u(rv.addr != nil && !rv.ro)}
 		},
 		"(reflect.Value).CanAddr": func(it *Interp, fn *ssa.Function, args []Value) Value {
 			rv := it.reflVal(args[0], "CanAddr")
@@ -591,6 +742,9 @@ func reflectValueIntrinsics() map[string]intrinsic {
 		},
 		"(reflect.Value).Set": func(it *Interp, fn *ssa.Function, args []Value) Value {
 			rv := it.reflVal(args[0], "Set")
+			if rv.ro {
+				it.goPanicValue(mkStrIface(it, "reflect: reflect.Value.Set using value obtained using unexported field"))
+			}
 			x := it.reflVal(args[1], "Set")
 			if rv.addr == nil {
 				it.goPanicValue(mkStrIface(it, "reflect: reflect.Value.Set using unaddressable value"))
@@ -606,6 +760,9 @@ func reflectValueIntrinsics() map[string]intrinsic {
 		},
 		"(reflect.Value).SetInt": func(it *Interp, fn *ssa.Function, args []Value) Value {
 			rv := it.reflVal(args[0], "SetInt")
+			if rv.ro {
+				it.goPanicValue(mkStrIface(it, "reflect: reflect.Value.SetInt using value obtained using unexported field"))
+			}
 			if rv.addr == nil {
 				it.goPanicValue(mkStrIface(it, "reflect: reflect.Value.SetInt using unaddressable value"))
 			}
@@ -614,6 +771,9 @@ func reflectValueIntrinsics() map[string]intrinsic {
 		},
 		"(reflect.Value).SetUint": func(it *Interp, fn *ssa.Function, args []Value) Value {
 			rv := it.reflVal(args[0], "SetUint")
+			if rv.ro {
+				it.goPanicValue(mkStrIface(it, "reflect: reflect.Value.SetUint using value obtained using unexported field"))
+			}
 			if rv.addr == nil {
 				it.goPanicValue(mkStrIface(it, "reflect: reflect.Value.SetUint using unaddressable value"))
 			}
@@ -622,6 +782,9 @@ func reflectValueIntrinsics() map[string]intrinsic {
 		},
 		"(reflect.Value).SetBool": func(it *Interp, fn *ssa.Function, args []Value) Value {
 			rv := it.reflVal(args[0], "SetBool")
+			if rv.ro {
+				it.goPanicValue(mkStrIface(it, "reflect: reflect.Value.SetBool using value obtained using unexported field"))
+			}
 			if rv.addr == nil {
 				it.goPanicValue(mkStrIface(it, "reflect: reflect.Value.SetBool using unaddressable value"))
 			}
@@ -630,6 +793,9 @@ func reflectValueIntrinsics() map[string]intrinsic {
 		},
 		"(reflect.Value).SetFloat": func(it *Interp, fn *ssa.Function, args []Value) Value {
 			rv := it.reflVal(args[0], "SetFloat")
+			if rv.ro {
+				it.goPanicValue(mkStrIface(it, "reflect: reflect.Value.SetFloat using value obtained using unexported field"))
+			}
 			if rv.addr == nil {
 				it.goPanicValue(mkStrIface(it, "reflect: reflect.Value.SetFloat using unaddressable value"))
 			}
@@ -638,6 +804,9 @@ func reflectValueIntrinsics() map[string]intrinsic {
 		},
 		"(reflect.Value).SetString": func(it *Interp, fn *ssa.Function, args []Value) Value {
 			rv := it.reflVal(args[0], "SetString")
+			if rv.ro {
+				it.goPanicValue(mkStrIface(it, "reflect: reflect.Value.SetString using value obtained using unexported field"))
+			}
 			if rv.addr == nil {
 				it.goPanicValue(mkStrIface(it, "reflect: reflect.Value.SetString using unaddressable value"))
 			}
@@ -660,6 +829,25 @@ func reflectValueIntrinsics() map[string]intrinsic {
 			it.reflKindPanic("NumField", rv)
 			return Value{}
 		},
+		"(reflect.Value).FieldByIndex": func(it *Interp, fn *ssa.Function, args []Value) Value {
+			sl, _ := args[1].Ref.(Slice)
+			cur := args[0]
+			fieldFn := reflectValueIntrinsics()["(reflect.Value).Field"]
+			elemFn := reflectValueIntrinsics()["(reflect.Value).Elem"]
+			for k := 0; k < sl.n; k++ {
+				rv := it.reflVal(cur, "FieldByIndex")
+				if k > 0 {
+					if _, isP := rv.t.Underlying().(*types.Pointer); isP {
+						if rv.cur().Ref == nil {
+							it.goPanicValue(mkStrIface(it, "reflect: indirection through nil pointer to embedded struct"))
+						}
+						cur = elemFn(it, fn, []Value{cur})
+					}
+				}
+				cur = fieldFn(it, fn, []Value{cur, it.loadCell(sl.c[k])})
+			}
+			return cur
+		},
 		"(reflect.Value).Field": func(it *Interp, fn *ssa.Function, args []Value) Value {
 			rv := it.reflVal(args[0], "Field")
 			i := int(it.concInt(args[1], types.Typ[types.Int]))
@@ -668,10 +856,11 @@ func reflectValueIntrinsics() map[string]intrinsic {
 				if i < 0 || i >= len(a.v) {
 					it.goPanicValue(mkStrIface(it, "reflect: Field index out of range"))
 				}
+				ro := rv.ro || (!st.Field(i).Exported() && st.Field(i).Pkg() != nil)
 				if rv.addr != nil && rv.addr.agg && len(rv.addr.sub) == len(a.v) {
-					return Value{Ref: &ReflVal{t: st.Field(i).Type(), addr: rv.addr.sub[i]}}
+					return Value{Ref: &ReflVal{t: st.Field(i).Type(), addr: rv.addr.sub[i], ro: ro}}
 				}
-				return Value{Ref: &ReflVal{t: st.Field(i).Type(), v: a.v[i]}}
+				return Value{Ref: &ReflVal{t: st.Field(i).Type(), v: a.v[i], ro: ro}}
 			}
 			it.reflKindPanic("Field", rv)
 			return Value{}
